@@ -693,12 +693,47 @@ fn dop_job(op: &DOp) -> String {
 
 pub fn main(tier: Tier, replay: Option<Value>) -> i32 {
     if let Some(r) = replay {
-        return do_replay(&r["replay"]);
+        // a process death is replayed by running the exploration again
+        if !r["replay"]["process_death"].is_array() {
+            return do_replay(&r["replay"]);
+        }
     }
     if let Ok(spec) = std::env::var("C04_DUMP_JOBS") {
         // "<path>:<max_cap>:<boundary 0|1>"
         let f: Vec<&str> = spec.split(':').collect();
         return dump_jobs(f[0], f[1].parse().unwrap(), f[2] == "1");
+    }
+    // The subject is unsafe code: an invalid free or a wild write typically ends the process instead of failing an
+    // oracle. So the exploration runs in a child process; a child killed by SIGSEGV / SIGABRT / SIGBUS / SIGILL /
+    // SIGFPE twice in a row is a verdict about the code (the same engine passes on the unchanged tree), any other
+    // abnormal end stays a machinery error.
+    if std::env::var("C04_CHILD").is_err() && !cfg!(miri) {
+        use std::os::unix::process::ExitStatusExt;
+        let exe = std::env::current_exe().expect("current exe");
+        let mut signals = vec![];
+        for _attempt in 0..2 {
+            let st = std::process::Command::new(&exe).arg("C04").arg("--tier").arg(tier.name()).env("C04_CHILD", "1").status().expect("spawn C04 child");
+            match (st.code(), st.signal()) {
+                (Some(c), _) => return c,
+                (None, Some(sig)) if [4, 6, 7, 8, 11].contains(&sig) => signals.push(sig),
+                (None, sig) => {
+                    let mut run = Run::new("C04", "model_checking", tier);
+                    run.machinery_error(format!("the exploration process was killed by signal {sig:?} (not a memory fault: out of memory or an outside kill)"));
+                    return run.finish();
+                }
+            }
+        }
+        let mut run = Run::new("C04", "model_checking", tier);
+        let name = |s: i32| match s {
+            4 => "SIGILL",
+            6 => "SIGABRT",
+            7 => "SIGBUS",
+            8 => "SIGFPE",
+            _ => "SIGSEGV",
+        };
+        run.violation(Violation { identity: format!("process_death:{}", name(signals[0])), what: format!("the process exploring the ring buffer / decode buffer was killed by {} in two consecutive runs ({:?}): the unsafe code corrupted memory, freed an invalid pointer or accessed unmapped memory (the progress lines above show how far the search had come)", name(signals[0]), signals), replay: json!({"process_death": signals}) });
+        run.set("exhaustive", false);
+        return run.finish();
     }
     let mut run = Run::new("C04", "model_checking", tier);
     // results of the Miri tier, produced by ./check before this engine runs (thorough tier)
